@@ -110,6 +110,15 @@ add("mapindex-without-key-type-test","C14","values.go","\t\tif av.Type().Key() !
 add("number-read-despite-error","C14","values.go","\tif i, err := n.Int64(); err == nil {\n\t\treturn i\n\t}","\tif i, err := n.Int64(); err != nil {\n\t\treturn i\n\t}","ERR-VALUE:numberOf:json.Number.Int64", quick=False)
 add("walk-stops-after-first-parent","C03","spec.go","\t\t\t\tancs = append(ancs, anc...)\n\t\t\t\tif len(ancs) > 0 {","\t\t\t\tancs = append(ancs, anc...)\n\t\t\t\tif len(ancs) >= 0 {","DEAD-TAIL:(*SpecValidator).validateCircularAncestry:constant-exit", quick=False)
 add("multiple-of-scaled","C13","values.go","\t\tmult = 1 / factor * data","\t\tmult = 2 / factor * data","MULTIPLE-TABLE:exact")
+add("pattern-member-not-recorded","C19","object_validator.go","\t\tif regularProperty || !matched {","\t\tif !(regularProperty || !matched) {","ROUTING:object:member-recorded")
+add("items-walk-does-not-descend","C03","spec.go","\t\tres.Merge(s.validateSchemaItems(schema, prefix, opID))\n","","SPEC-PRED:validateSchemaItems:descends", quick=False)
+add("facade-on-the-invalid-side","C13","validator.go","\t\tif resMultiple.IsValid() {","\t\tif resMultiple.HasErrors() {","NARROW:(*numberValidator).Validate:MultipleOfNativeType:selected-when-valid", quick=False)
+add("one-of-from-two-members","C01","schema_props.go","\tif len(s.oneOfValidators) > 0 {","\tif len(s.oneOfValidators) > 1 {","COUNTING:applied-when-nonempty:validateOneOf", quick=False)
+add("recycled-result-starts-at-one","C04","result.go","\tr.MatchCount = 0\n","\tr.MatchCount = 1\n","POOL-CLEARED:cleared:Result.MatchCount", quick=False)
+add("caller-result-from-the-pool","C04","schema.go","\tif s.Options.recycleResult {","\tif !s.Options.recycleResult {","REDEEM-GUARD:(*SchemaValidator).Validate:borrow-under-recycling", quick=False)
+add("setter-drops-its-argument","C10","spec.go","\ts.Options.ContinueOnErrors = c\n","","SETTER:(*SpecValidator).SetContinueOnErrors:c", quick=False)
+add("default-walker-skips-additional-items","C09","default_validator.go","\t\tres.Merge(d.validateDefaultValueSchemaAgainstSchema(path+\".additionalItems\", in, schema.AdditionalItems.Schema))\n","","TRAVERSE:", quick=False)
+add("required-not-defined-by-additional-schema","C03","spec.go","\t\t\t\tif red.IsValid() {\n\t\t\t\t\tadditionalPropertiesMatch = true","\t\t\t\tif red.IsValid() {\n\t\t\t\t\tadditionalPropertiesMatch = false","SPEC-PRED:(*SpecValidator).validateRequiredProperties:requiredButNotDefinedMsg", quick=False)
 json.dump(C, open('/verif/tables/controls.json','w'), indent=1)
 import os
 for c in C:
